@@ -110,7 +110,7 @@ func (a *Act) instr(st *State, ins ssa.Instruction) {
 		a.set(x, a.binop(st, x.Op, a.val(x.X), a.val(x.Y), x.X.Type(), x.Pos()))
 	case *ssa.Store:
 		p := a.val(x.Addr)
-		v := a.val(x.Val)
+		v := a.firstClass(a.val(x.Val), x.Val.Name())
 		if v.Loc != nil || v.Tuple != nil {
 			fail("storing non-first-class value")
 		}
@@ -163,7 +163,7 @@ func (a *Act) instr(st *State, ins ssa.Instruction) {
 		dn, vn, ks, vs := d.MapHeaps(mt)
 		ds, vsrt := "(Array Ref (Array "+ks+" Bool))", "(Array Ref (Array "+ks+" "+vs+"))"
 		st.setHeap(dn, ds, store(st.heap(dn, ds), r, fmt.Sprintf("((as const (Array %s Bool)) false)", ks)))
-		st.setHeap(vn, vsrt, store(st.heap(vn, vsrt), r, fmt.Sprintf("((as const (Array %s %s)) %s)", ks, vs, d.Zero(mt.Elem()))))
+		st.setHeap(vn, vsrt, store(st.heap(vn, vsrt), r, d.ConstArray(fmt.Sprintf("(Array %s %s)", ks, vs), d.Zero(mt.Elem()))))
 		a.set(x, r)
 	case *ssa.MakeSlice:
 		et := x.Type().Underlying().(*types.Slice).Elem()
@@ -340,9 +340,11 @@ func (a *Act) binop(st *State, op token.Token, xv, yv Val, t types.Type, pos tok
 			return app("/", x, y)
 		}
 		a.oblige(st, "div", "", pos, "division by zero", not(eq(y, "0")))
+		st.assume(not(eq(y, "0")))
 		return app("godiv", x, y)
 	case token.REM:
 		a.oblige(st, "div", "", pos, "division by zero", not(eq(y, "0")))
+		st.assume(not(eq(y, "0")))
 		return app("gomod", x, y)
 	case token.LAND, token.LOR:
 		fail("logical op in SSA")
